@@ -203,7 +203,7 @@ func c10(c *Ctx) {
 	for b := 0; b < bases; b++ {
 		seed := r.Next()
 		big := c.Thorough && b%4 == 3
-		enumFaults = &faultEnum{at: -1}
+		enumFaults = &faultEnum{at: -1, at2: -1}
 		base := genEncCase(&RNG{s: seed}, big)
 		nsites := enumFaults.site
 		sitesTotal += nsites
@@ -219,15 +219,19 @@ func c10(c *Ctx) {
 		}
 		emit(base, "base")
 		for at := 0; at < nsites; at++ {
-			enumFaults = &faultEnum{at: at}
+			enumFaults = &faultEnum{at: at, at2: -1}
 			v := genEncCase(&RNG{s: seed}, big)
 			v.meta["nt"] = "1"
 			emit(v, "fault")
 		}
-		if c.Thorough && nsites >= 2 { // pairs of faults: at and the last site
-			for at := 0; at+1 < nsites && at < 6; at++ {
-				enumFaults = &faultEnum{at: at}
-				// second fault through random mode on top is not expressible; pairs are taken as (at, at+1) by two passes
+		if c.Thorough && nsites >= 2 { // pairs of faults (bounded: the first 8 sites)
+			for a1 := 0; a1 < nsites && a1 < 8; a1++ {
+				for a2 := a1 + 1; a2 < nsites && a2 < 8; a2++ {
+					enumFaults = &faultEnum{at: a1, at2: a2}
+					v := genEncCase(&RNG{s: seed}, big)
+					v.meta["nt"] = "1"
+					emit(v, "fault2")
+				}
 			}
 		}
 	}
